@@ -16,8 +16,8 @@ from esim.values import canon
 from . import base
 
 ID = "C12"
-QUICK_RUNS = 4000
-THOROUGH_RUNS = 200000
+QUICK_RUNS = 12000
+THOROUGH_RUNS = 500000
 LEVEL = "exploration"
 RULE = ("SEQ run = one generated history of 5-60 log/add/remove/global-field operations (15% with 1001-1300 "
         "messages buffered before the first add) checked against an exact model of buffering and registration; "
